@@ -214,6 +214,41 @@ def mk_probes(tier, only=None, seed=0):
             for op in ["+", "-", "*", "/"]:
                 ref = (lambda op, t1: lambda a, b: (lambda r: (r[0], r[2]))(ref_bin(op, a, t1, b, t1)))(op, t1)
                 P.append(e2.ScalarProbe("arith/opassign/%s/%s" % (OPN[op], t1.cid), fn(), t1, [t1, t1], "a %s= b; return a;" % op, ref, timeout_ms=TMO))
+    # ---- compound assignment across integer/floating types, ++/-- on floating objects
+    if want("mixassign"):
+        for op in ["+", "-", "*", "/"]:
+            for t1 in ARITH12:
+                for t2 in ARITH12:
+                    if not (is_fp(t1) or is_fp(t2)) or (is_fp(t1) and is_fp(t2) and t1 is t2):
+                        continue
+                    if not full and (op in ("-", "*") or ULONG in (t1, t2) or (not is_fp(t1) and t1 not in (INT, UCHAR, LONG, BOOL)) or (not is_fp(t2) and t2 not in (INT, LONG))):
+                        continue
+                    def ref(a, b, op=op, t1=t1, t2=t2):
+                        v, tc, d = ref_bin(op, a, t1, b, t2)
+                        # v is an FP term of type tc (tc is floating because one operand is); convert back to t1
+                        if is_fp(t1):
+                            return (v if t1 is tc else z3.fpFPToFP(RNE, v, t1.sort)), d
+                        if t1.is_bool:
+                            return z3.If(z3.fpIsZero(v), z3.BitVecVal(0, 8), z3.BitVecVal(1, 8)), d
+                        n = t1.bits
+                        tr = z3.fpRoundToIntegral(RTZ, v)
+                        fin = z3.And(z3.Not(z3.fpIsNaN(v)), z3.Not(z3.fpIsInf(v)))
+                        if t1.signed:
+                            ok = z3.And(fin, z3.fpGEQ(tr, z3.fpNeg(two_pow(n - 1, tc.sort))), z3.fpLT(tr, two_pow(n - 1, tc.sort)))
+                            return z3.fpToSBV(RTZ, v, z3.BitVecSort(n)), z3.And(d, ok)
+                        ok = z3.And(fin, z3.fpGEQ(tr, z3.FPVal(0.0, tc.sort)), z3.fpLT(tr, two_pow(n, tc.sort)))
+                        return z3.fpToUBV(RTZ, v, z3.BitVecSort(n)), z3.And(d, ok)
+                    P.append(e2.ScalarProbe("mixassign/%s/%s/%s" % (OPN[op], t1.cid, t2.cid), fn(), t1, [t1, t2], "a %s= b; return a;" % op, ref, timeout_ms=TMO))
+        for t1 in FP3:
+            one = lambda t1: z3.FPVal(1.0, t1.sort)
+            for form, src, f in [("preinc", "return ++a;", z3.fpAdd), ("predec", "return --a;", z3.fpSub),
+                                 ("postinc-effect", "a++; return a;", z3.fpAdd), ("postdec-effect", "a--; return a;", z3.fpSub)]:
+                P.append(e2.ScalarProbe("mixassign/%s/%s" % (form, t1.cid), fn(), t1, [t1], src,
+                                        (lambda t1, f: lambda a: (f(RNE, as_fp(a, t1), z3.FPVal(1.0, t1.sort)), TRUE))(t1, f), timeout_ms=TMO))
+            P.append(e2.ScalarProbe("mixassign/postinc-value/%s" % t1.cid, fn(), t1, [t1], "return a++;",
+                                    (lambda t1: lambda a: (as_fp(a, t1), TRUE))(t1), timeout_ms=TMO))     # C11 6.5.2.4p2: the value of the operand
+            P.append(e2.ScalarProbe("mixassign/postdec-value/%s" % t1.cid, fn(), t1, [t1], "return a--;",
+                                    (lambda t1: lambda a: (as_fp(a, t1), TRUE))(t1), timeout_ms=TMO))
     # ---- comparisons incl. NaN / signed zero / infinities (all values symbolic)
     if want("cmp"):
         for op in ["<", "<=", ">", ">=", "==", "!="]:
